@@ -124,9 +124,6 @@ func vC19Token(rng *rand.Rand, class string) vC19Concrete {
 	return t
 }
 
-// classes whose secret must not be disclosed (TokenSaltContract: OwnUnsalted and legLocal)
-var vC19Protected = map[string]bool{"v2s39": true, "v2s41": true, "v2s50": true, "v2extra": true, "legLocal": true}
-
 // what the fake remote cluster received
 type vC19Captured struct {
 	uri    string
@@ -161,8 +158,9 @@ func (r *vC19Recorder) take() []vC19Captured {
 	return out
 }
 
-// vC19Observe: one observation record per incoming token, and the places where a secret was seen.
-func vC19Observe(reqs []vC19Captured, toks []vC19Concrete) ([]map[string]bool, string) {
+// vC19Observe: one observation record per incoming token (with the places where its secret was seen:
+// "url", "body", "header:<name>").
+func vC19Observe(reqs []vC19Captured, toks []vC19Concrete) []map[string]interface{} {
 	type place struct{ name, text string }
 	var places []place
 	for _, rq := range reqs {
@@ -196,16 +194,14 @@ func vC19Observe(reqs []vC19Captured, toks []vC19Concrete) ([]map[string]bool, s
 			}
 		}
 	}
-	obs := make([]map[string]bool, len(toks))
-	where := map[string]bool{}
+	obs := make([]map[string]interface{}, len(toks))
 	for i, t := range toks {
-		o := map[string]bool{"leak": false, "same": false, "salted": false, "twice": false}
+		o := map[string]interface{}{"leak": false, "same": false, "salted": false, "twice": false}
+		where := map[string]bool{}
 		for _, p := range places {
 			if strings.Contains(p.text, t.secret) {
 				o["leak"] = true
-				if vC19Protected[t.class] {
-					where[p.name] = true
-				}
+				where[p.name] = true
 			}
 			if strings.Contains(p.text, t.token) {
 				o["same"] = true
@@ -217,12 +213,13 @@ func vC19Observe(reqs []vC19Captured, toks []vC19Concrete) ([]map[string]bool, s
 				o["twice"] = true
 			}
 		}
+		ws := []string{}
+		for w := range where {
+			ws = append(ws, w)
+		}
+		sort.Strings(ws)
+		o["where"] = ws // places in which this token's secret was seen
 		obs[i] = o
 	}
-	var ws []string
-	for w := range where {
-		ws = append(ws, w)
-	}
-	sort.Strings(ws)
-	return obs, strings.Join(ws, ",")
+	return obs
 }
